@@ -1,6 +1,6 @@
 (* drv_pb.ml — print-buffer domain.  Line: "<alloc_limit> op;op;..." with
    A<hex> memappend, N<hex>,<n> memappend with explicit size, S<off>,<c>,<len> memset,
-   F<hex> sprintbuf("%s"), G<hex> sprintbuf("%s%c%s…") (at most three NUL bytes inside), R reset. *)
+   F<hex> sprintbuf("%s"), G<hex> sprintbuf("%s%c%s…") (at most three NUL bytes inside), X<k> sprintbuf("<%s|%d|%s>", buf, k, buf), R reset. *)
 open Model
 open Util
 
@@ -33,7 +33,23 @@ let run line =
     let out = ref [] in
     (try
       List.iter (fun s ->
-        match pb_step al !p (parse_op s) with
+        (* X<k>: sprintbuf(p, "<%s|%d|%s>", p->buf, k, p->buf) — the arguments point into the buffer itself;
+           the text is formatted from the contents as they are before the call (up to the first NUL) *)
+        let op =
+          if s.[0] = 'X' then begin
+            let k = String.sub s 1 (String.length s - 1) in
+            let rec upto = function
+              | Some b :: r -> if int_of_z b = 0 then Some [] else (match upto r with Some l -> Some (b :: l) | None -> None)
+              | None :: _ -> None
+              | [] -> Some [] in
+            match upto (pb_cells !p) with
+            | None -> out := "? ? ? ? ? ?" :: !out; raise Exit
+            | Some body ->
+              let z c = z_of_int (Char.code c) in
+              let lit str = List.map z (List.init (String.length str) (String.get str)) in
+              OpSprintf (lit "<" @ body @ lit ("|" ^ k ^ "|") @ body @ lit ">")
+          end else parse_op s in
+        match pb_step al !p op with
         | POk (p', r, _) -> p := p'; out := obs p' (string_of_z r) "0" :: !out
         | PErr (p', e) -> p := p'; out := obs p' "-1" (errno_name e) :: !out
         | PUB -> out := "UB" :: !out; raise Exit) (split_on ';' ops)
